@@ -163,6 +163,12 @@ type ftAccept struct {
 	tasks  []mesos.TaskInfo
 }
 
+// ftFidStore is the framework id store (store.Singleton) of the scheduler.
+type ftFidStore struct{ v string }
+
+func (f *ftFidStore) Get() (string, error) { return f.v, nil }
+func (f *ftFidStore) Set(v string) error   { f.v = v; return nil }
+
 type ftWorld struct {
 	m       *Manager
 	servent *controlcommands.Servent
@@ -183,7 +189,7 @@ func ftManager(tasks Tasks, send controlcommands.SendCommandFunc) *ftWorld {
 		internalEventCh: w.events,
 		ackKilledTasks:  safeacks.NewAcks(),
 	}
-	w.m.schedulerState = &schedulerState{cli: w.caller, servent: w.servent, commandqueue: cq, taskman: w.m}
+	w.m.schedulerState = &schedulerState{cli: w.caller, servent: w.servent, commandqueue: cq, taskman: w.m, fidStore: &ftFidStore{v: "framework-1"}}
 	for _, t := range tasks {
 		w.m.roster.append(t)
 	}
